@@ -47,6 +47,11 @@ CLAIMS["C19"] = ("global-write effect analysis over the CHA closure of Wrap/Prot
  "Trusted: go/ssa + go/types + CHA, package reflect. Not covered: reflection-walk faithfulness for arbitrary Go values, Marshal/Unmarshal round trip, float32 narrowing.",
  "DESIGN.md section 3, C19")
 
+CLAIMS["C11"] = ("who-may-write analysis of node storage (field-write effects with fresh-object tracking), Reset/AssignNode path rules, effect-freedom of the Node read API over its same-package call closure",
+ "Structural necessary conditions of 'a finished node never changes': storage of every struct-based Node implementation in basicnode and the generated demo package is written only by builder/assembler-role methods or into fresh objects; Reset never writes through the old work-in-progress pointer nor keeps its storage; the structure-sharing same-type AssignNode shortcut is sealed (finished state stored) on every path; every Node read method (and what it statically calls in its package) performs no non-fresh heap write, no reflect.Set* on non-fresh values, and rewinds a node-held reader before consuming it. Not equality of repeated reads as values.",
+ "Trusted: go/ssa + go/types, io.Seeker semantics. Not covered: aliasing of caller-supplied byte slices (excluded by the property), user mutation of bound Go values, concurrent reads of reader-backed bytes nodes.",
+ "DESIGN.md section 3, C11")
+
 NOT_APPLICABLE = {
  "C13": "concerns the output of running the code generator on arbitrary schemas and the run-time equivalence of two engines; the generator's logic lives in text/template strings, so no typed program exists to analyse before execution (DESIGN.md section 4)",
 }
